@@ -23,11 +23,11 @@ CONFIG = {
               'floors': {'evaluations': 5000, 'distinct_nontrivial': 1200, 'to_rdkit.compared': 2500, 'from_rdkit.compared': 700,
                          'roundtrip.compared': 2500, 'stereo.labels-roundtripped': 1500, 'from_rdkit.explicit-h.all-hydrogens': 120,
                          'from_rdkit.explicit-h.deuterium-on-centre': 120, 'from_rdkit.explicit-h.position-0': 10,
-                         'from_rdkit.explicit-h.position-2': 60, 'dative.bonds-checked': 60}},
+                         'from_rdkit.explicit-h.position-2': 60, 'dative.bonds-checked': 60, 'from_rdkit.dependent-centres': 40}},
     'thorough': {'shards': 16, 'budget_s': 1500, 'n_corpus': 4200, 'k_renum': 16,
                  'floors': {'evaluations': 80000, 'distinct_nontrivial': 8000, 'to_rdkit.compared': 30000, 'from_rdkit.compared': 4000,
                             'roundtrip.compared': 30000, 'stereo.labels-roundtripped': 15000, 'from_rdkit.explicit-h.all-hydrogens': 600,
-                            'from_rdkit.explicit-h.deuterium-on-centre': 600, 'dative.bonds-checked': 150}},
+                            'from_rdkit.explicit-h.deuterium-on-centre': 600, 'dative.bonds-checked': 150, 'from_rdkit.dependent-centres': 40}},
 }
 
 
@@ -187,6 +187,57 @@ def from_text(ctx, text, rng):
         ctx.violation('from_rdkit-%s-differs' % part, '%s: %s' % (text, d[:3]), {'smiles': text, 'form': 'from-text'})
 
 
+DEPENDENT = ['C[C@H](O)[C@H](Cl)[C@H](O)C', 'C[C@H](O)[C@@H](Cl)[C@H](O)C', 'OC[C@H](O)[C@@H](O)[C@H](O)CO', 'OC[C@H](O)[C@H](O)[C@H](O)CO',
+             'C/C=C/[C@H](O)/C=C\\C', 'C/C=C/[C@@H](O)/C=C\\C', 'C[C@H](N)[C@@H](O)[C@H](N)C', 'C[C@H](F)[C@H](C)[C@H](C)F', 'O[C@H]1C[C@@H](O)C[C@H](F)C1',
+             'C[C@H]1CC[C@@H](C)CC1', 'C[C@H]1CC[C@H](C)CC1', 'O[C@H]1CC[C@@H](O)CC1', 'N[C@H]1C[C@@H](N)C1', 'C[C@H]1C[C@@H](C)C1', 'OC(=O)[C@H]1CC[C@@H](CN)CC1',
+             'C1CC[C@H]2CCCC[C@H]2C1', 'C1CC[C@H]2CCCC[C@@H]2C1']
+
+
+def dependent_centres(ctx, rng):
+    """centres that are stereogenic only through other labels (pseudo-asymmetric carbons, ring cis/trans pairs): canonical texts of the
+    two toolkits are not comparable there, but every carbon RDKit keeps a tag on must carry a label after the conversion, and the two
+    members of a diastereomer pair must stay different molecules"""
+    from rdkit import Chem
+    seen = {}
+    for k, text in enumerate(DEPENDENT):
+        rd = Chem.MolFromSmiles(text)
+        if rd is None:
+            continue
+        tagged = [a.GetIdx() + 1 for a in rd.GetAtoms() if a.GetChiralTag() != Chem.ChiralType.CHI_UNSPECIFIED]
+        for j in range(3):
+            r2 = rd if not j else Chem.RenumberAtoms(rd, rng.sample(range(rd.GetNumAtoms()), rd.GetNumAtoms()))
+            ctx.evaluations += 1
+            ctx.count('from_rdkit.dependent-centres')
+            w = {'smiles': text, 'form': 'dependent-centres'}
+            try:
+                got = from_rdkit_molecule(r2)
+            except Exception as e:
+                ctx.violation('from_rdkit-raises/%s' % type(e).__name__, '%s: %r' % (text, e), w)
+                break
+            n_tag = sum(a.GetChiralTag() != Chem.ChiralType.CHI_UNSPECIFIED for a in r2.GetAtoms())
+            n_lab = sum(a.stereo is not None for _, a in got.atoms())
+            if n_lab < n_tag:
+                ctx.violation('from_rdkit-drops-dependent-centre', '%s: RDKit keeps %d tagged carbons, the converted molecule %s has %d labels' % (
+                    text, n_tag, got, n_lab), w)
+                break
+            try:
+                back = to_rdkit_molecule(got)
+                n_back = sum(a.GetChiralTag() != Chem.ChiralType.CHI_UNSPECIFIED for a in back.GetAtoms())
+            except Exception as e:
+                ctx.violation('to_rdkit-raises/%s' % type(e).__name__, '%s: %r' % (text, e), w)
+                break
+            if n_back < n_tag:
+                ctx.violation('to_rdkit-drops-dependent-centre', '%s: %d tagged carbons in, %d out' % (text, n_tag, n_back), w)
+                break
+            if not j:
+                key = str(got)
+                plain = Chem.MolToSmiles(rd, isomericSmiles=False)
+                for other_text, other_key in seen.get(plain, []):
+                    if other_key == key and Chem.MolToInchi(Chem.MolFromSmiles(other_text)) != Chem.MolToInchi(rd) if hasattr(Chem, 'MolToInchi') else False:
+                        ctx.violation('from_rdkit-diastereomers-collapse', '%s and %s both convert to %s' % (other_text, text, key), w)
+                seen.setdefault(plain, []).append((text, key))
+
+
 def explicit_hydrogens(ctx, text, rng):
     """RDKit molecules that carry hydrogens as atoms (AddHs, deuterium on a stereocentre) in a random atom order, so that the
     hydrogen stands at any position among the neighbours of a stereocentre; judged by RDKit's canonical SMILES of the converted
@@ -319,6 +370,8 @@ def worker(ctx):
     from rdkit.Chem import AllChem
     RDLogger.DisableLog('rdApp.*')
     dative(ctx, rng, cfg['k_renum'])
+    if ctx.shard == 1 % ctx.nshards:
+        dependent_centres(ctx, rng)
     c = T.corpus()
     ids = list(range(len(c)))
     _random.Random(ctx.seed).shuffle(ids)
